@@ -605,7 +605,7 @@ def bounds(quick):
             "geoms": [(2, 0, 0, 3), (2, 1, 1, 3), (4, 1, -2, 3), (4, 0, 0, 10), (8, 0, 0, 10), (8, 3, -4, 10), (6, 1, 2, 10), (10, 5, 0, 10)],
             "pgeoms": [(2, 0, 0), (4, 1, -2), (2, 3, 3), (6, -5, 2), (8, 0, 7)], "depths": [1, 2, 3, 4], "lattice": 14,
             "tiny_eps": list(range(1, len(EPS) + 1)), "tiny_dirs": list(TINY_DIRS) + [(-3, -4), (0, 2), (5, 12)],
-            "tiny_shapes": [(1, 1), (1, 3), (3, 1), (3, 3)]}
+            "tiny_shapes": [(1, 1), (1, 3), (3, 1)]}
 
 
 def expected_count(b):
